@@ -197,11 +197,11 @@ PROPS["C17"] = {
     "lean_modules": ["EcModel.Props.C17"],
     "harness": ["c17"],
     "both_profiles": True,
-    "t1_facts": ["dc:", "Dc.lean"],
-    "known_keys_expected": ["c17/nested-junction-wrong-parent", "c17/chain-delay-nondc-gap", "c17/port-time-wrap"],
-    "modelled": "ports.rs Ports::{new,set_receive_times,open_ports,entry_port,last_port,next_assignable_port,"
+    "t1_facts": ["dc:", "dctopo:", "Dc.lean"],
+    "known_keys_expected": ["c17/chain-delay-nondc-gap", "c17/port-time-wrap"],
+    "modelled": "ports.rs Ports::{new,set_receive_times,open_ports,entry_port,last_port,has_free_downstream_port,next_assignable_port,"
                 "assign_next_downstream_port,port_assigned_to,topology,is_last_port,total_propagation_time,"
-                "intermediate_propagation_time_to,propagation_time_to}, SubDevice::is_child_of, dc.rs find_subdevice_parent, "
+                "intermediate_propagation_time_to,propagation_time_to}, SubDevice::is_child_of, dc.rs find_subdevice_parent (junction search restricted to junctions with a free downstream port; source shape regenerated), "
                 "configure_subdevice_offsets (incl. the evaluated log arguments of this build configuration), "
                 "assign_parent_relationships, write_dc_parameters (i64 wrapping_sub), configure_dc "
                 "(latch as a function of the register values, reference selection, offset/delay writes)",
@@ -211,8 +211,9 @@ PROPS["C17"] = {
             "PduTx/PduRx against a register responder (BWR 0x0900, reads 0x0918/0x0900, writes 0x0920/0x0928) vs the model. Trees: "
             "1-24 devices, 1-4 open ports, children on any of ports 3/1/2, link 10-2000 ns, processing/forwarding delays (equal or "
             "independent 0-900 ns), DC support all/mixed/contiguous, 32- and 64-bit clocks with offsets placing the port-0 latch at "
-            "0, just after / just below / exactly at the 32-bit wrap; streams: flat trees (everything must hold), pure chains, "
-            "arbitrary shapes incl. nested junctions, intra-device wrap, plus arbitrary inconsistent reports (any DL status incl. no "
+            "0, just after / just below / exactly at the 32-bit wrap; streams: trees of every shape (flat, arbitrary, junctions nested "
+            "up to 4 deep inside non-last branches of the enclosing junction: everything must hold, nothing is excused by the shape), "
+            "pure chains, a nested-junction stream (spines of 2-5 junctions), intra-device wrap, plus arbitrary inconsistent reports (any DL status incl. no "
             "open port, arbitrary times, 1-24 devices) and master times over u64 edges. Dev and (thorough) release profile. Compared: "
             "result token incl. WHICH panic, per device parent/delay/downstream ports, reference address, all register writes. "
             "non-trivial = case with >= 3 devices; distinct = distinct case line",
@@ -220,7 +221,7 @@ PROPS["C17"] = {
         "devices are constructed by the hook verif::dc (Ports::new from the DL status, index = discovery position) exactly as SubDevice::new does",
         "Port.number is written only by Ports::new (T1 check), so Port::index() is the identity on array slots (port_index_total)",
         "build configuration without log/defmt: fmt::debug! evaluates its arguments (debug_print_ports calls topology())",
-        "parent_is_true_parent_partial: no junction inside a non-last branch of another junction; no 32-bit wrap between the latches of one DC device",
+        "parent_is_true_parent: any tree shape; no 32-bit wrap between the latches of one DC device (known finding c17/port-time-wrap)",
         "chain_delay_exact_partial: DC-capable devices contiguous in frame order (non-DC only before the first / after the last), pd(upstream) = return delay(downstream) on every hop, no intra-device wrap",
         "inconsistent_is_error: full statement since the fix of the topology panics (reports only need u32-typed times)",
         "offset_value: unconditional in both build modes since the wrapping_sub fix",
@@ -738,16 +739,19 @@ MANIFEST_TEXT["C10"] = {
 MANIFEST_TEXT["C17"] = {
     "text": "Theorems over the physical specification EcModel/DcSpec.lean (tree wired through port 0, children on ports 3/1/2 in "
             "frame order, symmetric link delays, per-device processing/forwarding delays, arbitrary clock offsets, 32/64-bit, any DC "
-            "mix): delay_monotone (ALL inputs: delays of DC devices never decrease); parent_is_true_parent_partial (every tree with "
-            "no junction inside a non-last branch of another junction: run succeeds, parent = physical upstream neighbour, every port's "
-            "downstream = the device plugged in; induction over the tree, unbounded size/depth); chain_delay_exact_partial (pure "
+            "mix): delay_monotone (ALL inputs: delays of DC devices never decrease); parent_is_true_parent (EVERY tree of the specification, any "
+            "nesting of chains, forks and crosses, unbounded size/depth: run succeeds, parent = physical upstream neighbour, every port's "
+            "downstream = the device plugged in; induction over the tree in frame order: the devices of completed subtrees have no "
+            "junction with a free downstream port, the enclosing junctions still have one, so the repaired search finds the nearest "
+            "ancestor junction; only hypothesis: no 32-bit wrap inside a device); chain_delay_exact_partial (pure "
             "chains on any ports, DC devices contiguous, symmetric forwarding: delay of every DC device = arrival - arrival of the first DC device) and chain_delay_formula (what is computed on any "
             "chain incl. the floor(./2) rounding and the non-DC case); offset_value/offset_formula (0x0920 = now - "
             "latched receive time as two's-complement i64, 0x0928 = delay, for exactly the DC devices, in order); "
             "first_dc_is_reference; inconsistent_is_error (ARBITRARY reports incl. no open port: never a panic; "
-            "inconsistent_is_error_configure_dc: same for the whole configure_dc); valid_tree_no_panic. Three known findings, each with a decide-checked counterexample "
-            "theorem and a harness key (nested junctions, non-DC gap, 32-bit wrap inside a device); four former findings fixed (no "
-            "open port, over-subscribed junction, nested-junction panic, i64 overflow): their witnesses are now theorems about errors/values.",
+            "inconsistent_is_error_configure_dc: same for the whole configure_dc); valid_tree_no_panic (any shape). Two known findings, each with a decide-checked counterexample "
+            "theorem and a harness key (non-DC gap, 32-bit wrap inside a device); five former findings fixed (no "
+            "open port, over-subscribed junction, nested-junction panic, i64 overflow, nested-junction wrong parent): their witnesses are now theorems "
+            "about errors/values (parent_is_true_parent_fixed: the former wrong-parent trees now get the physical parents and ports).",
     "note": "Trusted: Lean kernel; hand translation of dc.rs/ports.rs (validated by running the real assign_parent_relationships "
             "and the real configure_dc on every generated case, both profiles, incl. which panic fires); the physical specification "
             "itself (its Rust twin is diffed against the Lean one on every tree). Fork/cross delay formulas are modelled and tied "
@@ -984,8 +988,13 @@ PROPS["C12"] = {
     "known_keys_expected": [],
     "modelled": "EepromRange::{new, Read::read, read_byte, skip_ahead_bytes}, embedded-io-async read_exact, "
                 "SubDeviceEeprom::{start_at, category, items, find_string, sync_managers, fmmus, fmmu_mappings, pdos, "
-                "mailbox_config, general, identity, size, device_name, device_description}, the derived wire parsers of the SII "
-                "structs; byte layouts, category numbers, capacities and fixed word addresses regenerated from /repo",
+                "mailbox_config, general, identity, size, device_name, device_description, ignore_no_category}, "
+                "CategoryIterator::{next, next_sub_item}, the PDO loop incl. the u16 bit-length sum and the heapless push, the "
+                "derived wire parsers of the SII structs (SyncManager, Pdo, PdoEntry, FmmuEx, SiiGeneral incl. PortStatuses, "
+                "CoeDetails, Flags, bool); byte layouts, category numbers, capacities and fixed word addresses regenerated from "
+                "/repo. Spec side (EepromSpec.lean, independent of the parser model): encodeSii, encSm, encStrings, encPdo / "
+                "encPdoEntry (ETG2010 Table 14, all six + six fields), encGeneral (all 18 bytes + tail) with decidable "
+                "well-formedness predicates",
     "rule": "range reads: ALL (start word, length) windows over images of 0..16 words x chunk 4/8 x fill ff/00/wrap, each with "
             "single reads of exactly/less/more than the window, read_exact of n and n+1, a random schedule of partial reads, "
             "byte-wise reads, and the same through start_at with every (odd and even) byte length; random windows over 128 B .. "
@@ -993,7 +1002,10 @@ PROPS["C12"] = {
             "parsers: images encoded from random device descriptions (0..50 strings of 0..255 bytes incl. NUL and non-ASCII, "
             "0..8 SMs, 0..16 FMMUs, 0..16 FMMU_EX, 0..64 PDOs x 0..255 entries, optional categories in random order, 0..3 unknown "
             "categories interleaved, size word 0..4095, odd bodies padded with 00/ff, with/without End marker; a few padded to "
-            "their declared size), 31 queries each; an independent reading of ETG2010 (harness/src/eeprom_gen.rs Oracle) "
+            "their declared size; PDO DC-sync byte, name index and flags random over their whole range; 1 in 16 small devices "
+            "with 63..67 PDOs per direction, i.e. around the heapless capacity, more than 64 must give Capacity(Pdo); corpus: "
+            "exactly 64 and 65 PDOs, a PDO of 255 entries, 255 x 255 bits, General before and behind Strings), 31 queries "
+            "each; an independent reading of ETG2010 (harness/src/eeprom_gen.rs Oracle) "
             "says what each query must return. Compared with the model: every answer token and provider-call count. "
             "non-trivial = all-ranges case / device with >= 3 categories; distinct = distinct image",
     "assumptions": [
@@ -1015,13 +1027,30 @@ MANIFEST_TEXT["C12"] = {
             "byte extent of every present category, images up to 128 KiB), category_absent, category_found_counterexample (32 "
             "empty categories: the code's heuristic, kept); round trips sync_managers_roundtrip, fmmus_roundtrip, "
             "fmmu_mappings_roundtrip (with pad byte), find_string_roundtrip (NUL stripping, non-ASCII -> '?', any position in "
-            "the table), identity_roundtrip, mailbox_roundtrip, size_roundtrip (every size word); former counterexamples kept as "
+            "the table), identity_roundtrip, mailbox_roundtrip, size_roundtrip (every size word); pdos_roundtrip (EVERY list "
+            "of <= 64 well-formed PDO descriptions - index, sync manager, DC sync, name index, flags, 0..255 entries of index, "
+            "sub-index, name index, data type, bit length, flags - stored as TxPDO (50) or RxPDO (51) anywhere in the category "
+            "list, chunk >= 4, both build modes: exactly one Pdo per description in order with its index, entry count, sync "
+            "manager and the SUM of its entries' bit lengths, which is everything the real Pdo keeps; the u16 sum cannot "
+            "overflow), pdos_over_capacity (> 64 PDOs: Capacity(Pdo), never a panic or a truncated list), pdos_absent (no "
+            "category: empty list); general_roundtrip (every field SiiGeneral has: four string indices, CoE detail bits, "
+            "FoE/EoE enables, flags, EBus current, four port kinds with 5..15 read as unused, physical memory address; reserved "
+            "bytes and tail ignored), general_absent (NoCategory); name_roundtrip / description_roundtrip (device_name = "
+            "cleaned string at General's ORDER index, device_description = cleaned string at its NAME index, General and "
+            "Strings in either order anywhere in the list: general_roundtrip composed with find_string_roundtrip), "
+            "name_description_index_zero, name_description_no_general (name absent; description is the error NoCategory), "
+            "name_description_no_strings; former counterexamples kept as "
             "range_window_fixed, read_raw_odd_fixed, find_string_one_past_fixed; t1_layouts / t1_constants tie the literal "
-            "offsets to the layouts regenerated from /repo.",
-    "note": "Trusted: Lean kernel; hand translation (validated on generated cases); the oracle's reading of ETG2010. PDO lists "
-            "with bit lengths and the General category are tied by the correspondence and the Rust oracle only (no Lean round "
-            "trip). All former known findings of this property are repaired in /repo (u32 cursor, size in usize, find_string "
-            ">=, start_at div_ceil).",
+            "offsets to the layouts regenerated from /repo. Non-vacuity: concrete images (two TxPDOs of 2 and 3 entries, "
+            "General behind Strings, 65 PDOs) evaluated by the kernel AND fed through pdos_roundtrip / name_roundtrip with "
+            "every hypothesis discharged.",
+    "note": "Trusted: Lean kernel; hand translation (validated on generated cases); the oracle's reading of ETG2010. Every "
+            "clause of the statement now has a Lean round trip against EepromSpec. Stays partial: the round trips assume an "
+            "image inside the 128 KiB the word addresses reach, fewer than 32 empty categories before the one searched for, and "
+            "the FIRST category of a type (duplicates are not described); a name/description index beyond the string table "
+            "and a PDO category cut short (Decode) are covered by examples and the correspondence only, not by a quantified "
+            "theorem; the per-entry bit lengths are not observable (the real Pdo stores only their sum). All former known "
+            "findings of this property are repaired in /repo (u32 cursor, size in usize, find_string >=, start_at div_ceil).",
     "technique": "Lean 4 proof (loop invariants over chunk assembly; walk induction over encoded categories) + differential correspondence",
 }
 
@@ -1056,3 +1085,10 @@ PROPS["C03"]["drivers"]["c03m"] = "drv_micro"
 PROPS["C03"]["rule"] += (" || c03m: the schedule-controlled runs of C06 (deadlines, retries, drops at arbitrary points incl. while TX/RX are inside the "
                          "buffer, failed sends, noise) judged only by the capacity monitors: after every handle was dropped each slot is free "
                          "again, no side panicked; every step's snapshot compared with the micro-step model")
+
+# C02 under deadlines (added after seed C02b: a retry store guarded by a stale status sample)
+PROPS["C02"]["harness"].append("c02t")
+PROPS["C02"].setdefault("drivers", {})["c02t"] = "drv_micro"
+PROPS["C02"]["rule"] += (" || c02t: the same with deadlines (retries 0-2, final timeouts at arbitrary points; tasks parked right before "
+                         "their retry / release store while RX and TX run on), judged by the buffer-exclusion, lifecycle-order "
+                         "(every observed status change is an edge of the documented lifecycle) and store-over-live-state monitors")
